@@ -142,9 +142,22 @@ def check(ctx):
     # printed depth is the counter itself
     prints = [n for n, cfid, nm in it.calls() if nm == 'engine::Search::print_info']
     okp = bool(prints)
+    def is_counter(a):
+        """the counter itself, or a never-reassigned local holding the value of its pre-increment in this cycle"""
+        a = strip_casts(a)
+        if a.get('ref', {}).get('n') == 'engine::Search::_current_depth':
+            return True
+        if a.get('ref', {}).get('k') == 'Local':
+            from rules.effects import single_def as _sd9
+            d0 = _sd9(it, a['ref']['id'])
+            d0 = strip_casts(d0) if d0 is not None else None
+            if d0 is not None and d0['k'] == 'UnaryOperator' and d0.get('op') == '++' and not d0.get('post') and \
+                    strip_casts(kids(d0)[0]).get('ref', {}).get('n') == 'engine::Search::_current_depth':
+                return True
+        return False
     for pr in prints:
         a = strip_casts(kids(pr)[2])    # callee, result, depth
-        okp = okp and a.get('ref', {}).get('n') == 'engine::Search::_current_depth'
+        okp = okp and is_counter(a)
     ctx.ob('C09.R2.printed-depth', 'iter_search', okp,
            'the depth reported in `info depth` is the iteration counter itself', site=it.loc(prints[0]) if prints else it.loc())
     # exit test on every cycle
@@ -152,10 +165,14 @@ def check(ctx):
     for n in it.all_nodes():
         if n['k'] == 'BinaryOperator' and n.get('op') in ('>=', '>', '=='):
             a, b = [strip_casts(x) for x in kids(n)]
-            if a.get('ref', {}).get('n') == 'engine::Search::_current_depth' and \
+            if is_counter(a) and \
                     b.get('ref', {}).get('n') == 'engine::Search::_search_depth' and n['op'] in ('>=', '=='):
                 tests.append(n)
     ok = False
+    for t in tests:
+        if any(a['k'] == 'VarDecl' for a in it.ancestors(t)):
+            raise AnalysisBroken('C09: the test of the iteration counter against the depth limit at %s is stored in a variable before it '
+                                 'is acted on; the rule follows branch edges of the test itself' % it.loc(t))
     if tests and outer is not None:
         from props.C06 import _cycle_avoiding
         ok = _cycle_avoiding(c, outer[1], outer[0], outer[2], set(t['i'] for t in tests)) is None
@@ -188,8 +205,9 @@ def check(ctx):
     nit = _Nr(it, inline=False, keep=('info',))
     rootcalls = [n for n, cfid, nm in it.calls() if nm == 'engine::Search::search']
     base_set = [n for n in it.all_nodes() if n['k'] == 'BinaryOperator' and n.get('op') == '=' and
-                nit.s(kids(n)[0]) in ('info._ply', '(*(info))._ply', 'info->_ply') and _Nr(it).cval(kids(n)[1]) == -1]
-    frame_ok = bool(rootcalls) and all(nit.s(kids(c_)[-1]) == '(info+1)' for c_ in rootcalls)
+                re.fullmatch(r'\(?\*?\(?(\w+)\)?\)?(\.|->)_ply', nit.s(kids(n)[0])) and _Nr(it).cval(kids(n)[1]) == -1]
+    bases = {re.fullmatch(r'\(?\*?\(?(\w+)\)?\)?(\.|->)_ply', nit.s(kids(n)[0])).group(1) for n in base_set}
+    frame_ok = bool(rootcalls) and len(bases) == 1 and all(nit.s(kids(c_)[-1]) == '(%s+1)' % next(iter(bases)) for c_ in rootcalls)
     base_ok = len(base_set) >= 1 and all(any(it.cfg.node_dominates(b_, c_) for b_ in base_set) for c_ in rootcalls)
     ns = _Nr(s, inline=False, keep=('info',))
     ply_def = [n for n in s.all_nodes() if n['k'] == 'BinaryOperator' and n.get('op') == '=' and ns.s(kids(n)[0]) in ('info._ply',)]
